@@ -93,6 +93,22 @@ def handle (op : String) (a : Json) : P Json := do
       ("occs", Json.arr ((occupanciesAt obs2 t role).map fun (i, oc) => Json.arr #[natJ i, occJ oc]).toArray),
       ("states", Json.arr ((statesAt obs2 t).map fun (i, s) => Json.arr #[natJ i, stJ s]).toArray),
       ("by_role_type", Json.arr ((byRoleType obs role ty).map natJ).toArray)]
+  | "by_position" =>
+    let obs ← getList (fun j => do
+      let c : Option (Rat × Rat) ← match fieldOpt j "c" with
+        | none => pure none
+        | some v => do
+          let p ← ptOf v
+          pure (some (p.x, p.y))
+      pure (← getNat j "id", ← obstOf (← field j "obst"), c)) a "obs"
+    let t ← getInt a "t"
+    let roles ← getList (fun j => do roleOf (← asStr j)) a "roles"
+    let iv (k : String) : P CR.Iv.I := do
+      match ← getList asRat a k with
+      | [lo, hi] => pure ⟨lo, hi⟩
+      | _ => throw "interval: expected [lo, hi]"
+    let ctr (i : Nat) : Option (Rat × Rat) := ((obs.find? (fun x => x.1 == i)).map (fun x => x.2.2)).join
+    pure <| Json.arr ((byPosition (obs.map fun (i, o, _) => (i, o)) ctr (← iv "ix") (← iv "iy") roles t).map natJ).toArray
   | _ => throw s!"C04: unknown op {op}"
 
 end CR.Drv.C04
